@@ -56,7 +56,38 @@ class Case:
                 "learned": [{"context": c, "surface": s, "count": k} for c, s, k in self.freq]}
 
 
+def gen_prefix_family(rng):
+    """Several prefix nodes at the head of the input (same reading with different surfaces, and nested prefixes) and standard words
+    whose readings are concatenations of two stretches of the input — what a lookup key that is not rebuilt for every start
+    position / prefix would look up (C01e seed's shape)."""
+    k = 2 + rng.below(3)
+    kana = [rng.pick(ALPHA[:60]) for _ in range(k)]
+    p = "".join(rng.pick(kana) for _ in range(1 + rng.below(2)))
+    rest = "".join(rng.pick(kana) for _ in range(1 + rng.below(4)))
+    words = [("anc", p, rng.pick(KANJI), "AFX.prefix"), ("anc", p, rng.pick(KANJI), "AFX.prefix")]
+    if rng.chance(1, 2):
+        words.append(("anc", p + rest[:1], rng.pick(KANJI), "AFX.prefix"))
+    if rng.chance(1, 3):
+        words.append(("anc", p, rng.pick(KANJI), "AFX.prefix"))
+    inp = p + rest
+    if rng.chance(1, 3):
+        inp += rng.pick(kana)
+    for _ in range(1 + rng.below(3)):
+        a = rng.below(len(inp)); b = a + 1 + rng.below(len(inp) - a)
+        words.append(("std", inp[a:b], rng.pick(KANJI) + rng.pick(KANJI), rng.pick(STD_SPEECH)))
+    for _ in range(2 + rng.below(4)):
+        # stale concatenations: two stretches that both start after a prefix
+        s1 = len(p) + (rng.below(2) if len(inp) > len(p) + 1 else 0)
+        s2 = len(p) + (rng.below(2) if len(inp) > len(p) + 1 else 0)
+        e1 = s1 + 1 + rng.below(max(1, len(inp) - s1))
+        e2 = s2 + 1 + rng.below(max(1, len(inp) - s2))
+        words.append(("std", inp[s1:e1] + inp[s2:e2], rng.pick(KANJI) + rng.pick(KANJI), rng.pick(STD_SPEECH[:4])))
+    return Case(words, [], inp[:12], rng.pick([3, 5, 5]))
+
+
 def gen_case(rng):
+    if rng.chance(1, 8):
+        return gen_prefix_family(rng)
     k = 2 + rng.below(4)
     kana = [rng.pick(ALPHA[:60]) for _ in range(k)]
     nwords = rng.below(9)
@@ -128,6 +159,11 @@ CORPUS = [
     # prefix followed by a proper noun (C16 seed's shape)
     Case([("std", "やま", "矢間", "N.proper"), ("std", "やま", "山", "N.common"), ("std", "おやま", "小山", "N.common"),
           ("anc", "お", "御", "AFX.prefix")], [], "おやま", 5),
+    # two prefix nodes at the head and a word whose reading is what a stale lookup key would spell (C01e seed's shape)
+    Case([("anc", "お", "御", "AFX.prefix"), ("anc", "お", "於", "AFX.prefix"), ("std", "ちゃ", "茶", "N.common"),
+          ("std", "ちゃちゃ", "茶々", "N.common")], [], "おちゃ", 5),
+    Case([("anc", "お", "御", "AFX.prefix"), ("anc", "おお", "大", "AFX.prefix"), ("std", "おき", "沖", "N.common"),
+          ("std", "き", "木", "N.common"), ("std", "おきき", "起き木", "N.common")], [], "おおき", 5),
     # input with characters outside the trie alphabet after a word (C03 seed's shape), and whitespace (C01 seed's shape)
     Case([("std", "くるま", "車", "N.common"), ("anc", "しん", "新", "AFX.prefix")], [], "くるま2だい", 3),
     Case([("std", "くるま", "車", "N.common"), ("anc", "で", "で", "P.case")], [], "くるまで　", 3),
